@@ -479,7 +479,7 @@ func prepareCall(fr *frame, call *ssa.CallCommon) (fn value, args []value) {
 		// Interface method invocation.
 		recv := v.(iface)
 		if recv.t == nil {
-			panic("method invoked on nil interface")
+			panic(targetPanic{iface{fr.i.runtimeErrorString, "runtime error: invalid memory address or nil pointer dereference (method call on nil interface)"}})
 		}
 		if f := lookupMethod(fr.i, recv.t, call.Method); f == nil {
 			// Unreachable in well-typed programs.
